@@ -49,3 +49,29 @@ Definition ex_bad_obs_cancel : list obs :=
      [(RUNNING, [0], 0); (INITIALIZED, [], 0); (INITIALIZED, [], 0); (INITIALIZED, [], 0)], SRUNNING);
     ([ECheck [0]; EGen 0; ESubmit 0 Restart true (Some 1)],
      [(TIMEDOUT, [0; 1], 1); (INITIALIZED, [], 0); (INITIALIZED, [], 0); (INITIALIZED, [], 0)], SRUNNING) ].
+
+(** an unthrottled happy run: 1 and 2 are staged and submitted in the same poll *)
+Definition ex_ps0 : list pin :=
+  [ mkpin false QOK [] [];
+    mkpin false QOK [(0, Some FINISHED)] [];
+    mkpin false QOK [(1, Some FINISHED)] [];
+    mkpin false QOK [(3, Some FINISHED)] [] ].
+
+(** unthrottled, node 2 staged (its parent finished) but left INITIALIZED *)
+Definition ex_bad_obs0 : list obs :=
+  [ ([ECheck []; EGen 0; ESubmit 0 Main true (Some 0)],
+     [(PENDING, [0], 0); (INITIALIZED, [], 0); (INITIALIZED, [], 0); (INITIALIZED, [], 0)], SRUNNING);
+    ([ECheck [0]; EGen 1; ESubmit 1 Main true (Some 1)],
+     [(FINISHED, [0], 0); (PENDING, [1], 0); (INITIALIZED, [], 0); (INITIALIZED, [], 0)], SRUNNING) ].
+
+(** node 0 resubmitted after it finished *)
+Definition ex_bad_obs_resubmit : list obs :=
+  [ ([ECheck []; EGen 0; ESubmit 0 Main true (Some 0)],
+     [(PENDING, [0], 0); (INITIALIZED, [], 0); (INITIALIZED, [], 0); (INITIALIZED, [], 0)], SRUNNING);
+    ([ECheck [0]; EGen 0; ESubmit 0 Main true (Some 1)],
+     [(PENDING, [0; 1], 0); (INITIALIZED, [], 0); (INITIALIZED, [], 0); (INITIALIZED, [], 0)], SRUNNING) ].
+
+(** a final status returned while job 0 is still live *)
+Definition ex_bad_obs_orphan : list obs :=
+  [ ([ECheck []; EGen 0; ESubmit 0 Main true (Some 0)],
+     [(PENDING, [0], 0); (INITIALIZED, [], 0); (INITIALIZED, [], 0); (INITIALIZED, [], 0)], SFAILURE) ].
